@@ -231,7 +231,9 @@ def c17_2(R):
         R.fail([b.name, "no-exit(MaxSynAckRetransmissionsReached)"], "reaching the SYN-ACK cap no longer fails the connection", where=b.where(), instance="synack-cap=>error")
     ns = const_duration_ns(F, "constants::SYNACK_RESEND_INTERNAL")
     arms = [t for t in b.calls() if call_matches(t, ("stream_dispatch::Timer::arm",)) and trace(b, t.args[0]).last_field == "Timers.syn_ack_resend"]
-    if ns == 200_000_000 and arms and all(a.args[2].const_item == "constants::SYNACK_RESEND_INTERNAL" for a in arms):
+    if arms and not all(a.args[3].kind == "const" and a.args[3].scalar == 1 for a in arms):
+        R.fail([b.name, "resend-timer", "restart=false"], "the SYN-ACK resend timer is armed without restart: the expired deadline is kept and the SYN-ACK is repeated on every poll instead of every 200 ms", where=arms[0].where(), instance="synack-resend-interval")
+    elif ns == 200_000_000 and arms and all(a.args[2].const_item == "constants::SYNACK_RESEND_INTERNAL" for a in arms):
         R.ok("synack-resend-interval", b.name, "200 ms")
     else:
         R.fail([b.name, "resend-interval", "ns=%s" % ns], "the SYN-ACK resend timer is not armed with SYNACK_RESEND_INTERNAL = 200 ms", where=b.where(), instance="synack-resend-interval")
